@@ -55,7 +55,7 @@ def _l2_on_accept(state):
     """L2 lane: the complete graphs of an accepted batch are handed to the model conformance check"""
     def cb(gl):
         try:
-            duts = cl.reshape_duts(l2.graph_cases(gl, cl.LANE))
+            duts = cl.reshape_duts(l2.graph_cases(gl, cl.LANE, cap_per_dut=state.get("cap")))
         except KeyError as ex:          # a register of the model is not in the netlist any more: drift, not a failure
             state["drifts"].append(_projection_drift(gl.duts[0].spec, ex))
             return
@@ -241,7 +241,9 @@ def run_l2(report, tier, seed, state):
     little ordering) in a run of its own without the clause it is known to fail, exactly as G-mode does; (c) drift
     notes; a drifting DUT class is explored against the L1 contract at the thorough tier's parameters."""
     report.add(l2_model={"module": "csrbank/CsrBankModel", "graph_duts_conformant": state["graph_duts"],
-                         "graph_edges_judged": state["graph_cases"], "run_duts": state["run_duts"],
+                         "graph_edges_judged": state["graph_cases"],
+                         "graph_edge_sample": ("every k-th edge, at most %d per DUT (all edges in the thorough tier)" % state["cap"])
+                         if state.get("cap") else "all edges", "run_duts": state["run_duts"],
                          "run_cycles_judged": state["run_cases"], "constructions_judged": state["constructions"]})
     mcfgs = cl.mmode_configs(tier)
     groups = [("all clauses", [x for x in mcfgs if not cl.known_little_atomic(x["spec"])], INVS),
@@ -310,7 +312,8 @@ def run(prop, report, tier, seed):
                   "every cycle of the long runs and every construction outcome must be reproduced by the model (else "
                   "MODEL-DRIFT and escalation), and the model is checked against the same clauses in M-mode for banks of "
                   "five and six registers of up to four bus words")
-    l2state = {"graph_cases": 0, "graph_duts": 0, "run_duts": 0, "run_cases": 0, "constructions": 0, "drifts": [], "notes": []}
+    l2state = {"graph_cases": 0, "graph_duts": 0, "run_duts": 0, "run_cases": 0, "constructions": 0, "drifts": [], "notes": [],
+               "cap": 30000 if tier == "quick" else None}   # quick: stride sample of at most 30k edges per DUT
     for name, fn in (("construction", lambda: construction_cases(report, tier, seed, l2state)),
                      ("g_mode", lambda: g_mode(report, tier, l2state)),
                      ("sram_windows", lambda: sram_windows(report, tier, l2state)),
